@@ -30,7 +30,12 @@ CONSTANTS MaxText,     \* text machine: texts of up to MaxText characters
           MaxMaps,     \* link machine: mappings per chunk
           MaxLine,     \* link machine: line breaks inside one chunk (0..MaxLine)
           Cols,        \* columns and offsets, e.g. {0, 1, 5}
-          WithNull     \* link machine: also chunks without mappings ("null entries")
+          WithNull,    \* link machine: also chunks without mappings ("null entries")
+          SrcCounts,   \* link machine: how many sources one file contributes to "sources"
+                       \* (1 = a plain file, k > 1 = a file that carries an input source
+                       \* map listing k sources), e.g. {1} or {1, 2, 3}
+          WithRepeat   \* link machine: a file may occur twice among the results of one
+                       \* output file (CSS: one file imported twice) and then shares its slot
 
 VARIABLE s
 
@@ -140,7 +145,7 @@ Build(ms, st, line, lines, acc) ==
 ChunkOf(c) == Build(c.maps, St0, 0, c.lines, <<>>)
 \* a chunk together with its buffer and end state (computed once)
 WithBuf(c) == LET b == ChunkOf(c) IN
-  [maps |-> c.maps, lines |-> c.lines, fcol |-> c.fcol, buf |-> b.buf, end |-> b.end]
+  [maps |-> c.maps, lines |-> c.lines, fcol |-> c.fcol, nsrc |-> c.nsrc, buf |-> b.buf, end |-> b.end]
 
 HasNames(c) == \E i \in 1..Len(c.maps) : c.maps[i].nm >= 0
 NumNames(c) == IF HasNames(c) THEN Max({c.maps[i].nm : i \in 1..Len(c.maps)}) + 1 ELSE 0
@@ -195,6 +200,35 @@ Join(prevEnd, start, buf) ==
 (***************************************************************************)
 (* 4. The loop of linker.go generateSourceMapForChunk                      *)
 (***************************************************************************)
+\* --- first loop: the "sources" array and the per-file source index base -----
+\* A result is r = [file, nsrc, null]: the file it was printed from, the number
+\* of sources the file contributes (1 without an input source map, otherwise
+\* len(InputSourceMap.Sources)), and whether it is a null entry (no mappings).
+\* The loop keeps P = [idx: sourceIndexToSourcesIndex, items, next: nextSourcesIndex];
+\* an item is <<file, j>> = "source number j of the file's own map".
+Pass0 == [idx |-> << >>, items |-> << >>, next |-> 0]
+PassStep(P, r) ==
+  IF r.null \/ r.file \in DOMAIN P.idx THEN P
+  ELSE [idx |-> P.idx @@ (r.file :> P.next),
+        items |-> P.items \o [j \in 1..r.nsrc |-> <<r.file, j - 1>>],
+        next |-> P.next + r.nsrc]
+RECURSIVE SourcesPass(_, _)
+SourcesPass(rs, P) == IF rs = <<>> THEN P ELSE SourcesPass(Tail(rs), PassStep(P, Head(rs)))
+\* Reference meaning: the files in the order of their first non-null result; the
+\* base of a file is the number of sources contributed by the files before it,
+\* "sources" is the concatenation of the files' own source lists
+FirstAt(rs, f) == Min({i \in 1..Len(rs) : ~rs[i].null /\ rs[i].file = f})
+FilesOf(rs) == {rs[i].file : i \in {i \in 1..Len(rs) : ~rs[i].null}}
+NsrcOf(rs, f) == rs[FirstAt(rs, f)].nsrc
+RECURSIVE SumNsrc(_, _)
+SumNsrc(rs, F) == IF F = {} THEN 0 ELSE LET f == CHOOSE f \in F : TRUE IN NsrcOf(rs, f) + SumNsrc(rs, F \ {f})
+RefBase(rs, f) == SumNsrc(rs, {g \in FilesOf(rs) : FirstAt(rs, g) < FirstAt(rs, f)})
+\* sources[k] (0-based) names source j of file f iff RefBase(f) + j = k
+RefSourceAt(rs, k) ==
+  CHOOSE fj \in {<<f, j>> : f \in FilesOf(rs), j \in 0..(Max({rs[i].nsrc : i \in 1..Len(rs)}) - 1)} :
+     fj[2] < NsrcOf(rs, fj[1]) /\ RefBase(rs, fj[1]) + fj[2] = k
+RefNumSources(rs) == SumNsrc(rs, FilesOf(rs))
+
 \* L: [pe: prevEndState, pco: prevColumnOffset, tn: totalQuotedNameLen]
 \* r: [chunk (WithBuf), off: text offset from the end of the previous mapped chunk
 \*     (the zero offset for a null entry: linker.go leaves generatedOffset unset),
@@ -224,8 +258,9 @@ LinkAll(rs, L, acc) ==
 
 \* Reference: a chunk whose text starts at text position p (absolute) with source
 \* index src and name base nb contributes these absolute mappings
+\* (src = the file's base in "sources"; m.src = the source within the file's own map)
 Rebase(m, p, src, nb) ==
-  Mp(p.lines + m.gl, (IF m.gl = 0 THEN p.cols ELSE 0) + m.gc, src, m.ol, m.oc,
+  Mp(p.lines + m.gl, (IF m.gl = 0 THEN p.cols ELSE 0) + m.gc, src + m.src, m.ol, m.oc,
      IF m.nm >= 0 THEN nb + m.nm ELSE -1)
 Rebased(c, p, src, nb) == [i \in 1..Len(c.maps) |-> Rebase(c.maps[i], p, src, nb)]
 \* text position after the chunk's text
@@ -233,14 +268,21 @@ ChunkEnd(c, p) == Add(p, Off(c.lines, c.fcol))
 
 (***************************************************************************)
 (* 5. The link machine                                                     *)
-(*    s = [n, L, d, e, base, nullOff, ok, sorted, inrange]                 *)
+(*    s = [n, L, d, e, pend, afterNull, rs, ok, sorted, inrange, named]     *)
 (*    d    : decoder state after everything joined so far                  *)
 (*    e    : text position of the end of the last mapped chunk             *)
 (*    pend : text offset (from e) up to which ignored chunks reach         *)
+(*    rs   : the results so far as [file, nsrc, null] (input of the first  *)
+(*           loop: per-file source index base and the "sources" array)     *)
 (***************************************************************************)
 Origs == {<<0, 0>>, <<1, 4>>}
 NameVals == {-1, 0, 1}
-MapSet == {Mp(gl, gc, 0, o[1], o[2], nm) : gl \in 0..MaxLine, gc \in Cols, o \in Origs, nm \in NameVals}
+\* (smaller value sets that a config may substitute: Origs <- OneOrig, NameVals <- FewNames)
+OneOrig == {<<1, 4>>}
+FewNames == {-1, 0}
+MaxSrc == Max(SrcCounts)
+\* a mapping of a chunk names a source of the file's OWN map (0 for a plain file)
+MapSet == {Mp(gl, gc, sr, o[1], o[2], nm) : gl \in 0..MaxLine, gc \in Cols, sr \in 0..(MaxSrc - 1), o \in Origs, nm \in NameVals}
 PosLess(a, b) == a.gl < b.gl \/ (a.gl = b.gl /\ a.gc < b.gc)
 \* names are numbered in the order of their first use
 NamesInOrder(ms) ==
@@ -248,42 +290,59 @@ NamesInOrder(ms) ==
 MapSeqs == {ms \in UNION {[1..n -> MapSet] : n \in 1..MaxMaps} :
               /\ \A i \in 1..(Len(ms) - 1) : PosLess(ms[i], ms[i + 1])
               /\ NamesInOrder(ms)}
-ChunkSet == {[maps |-> ms, lines |-> l, fcol |-> f] : ms \in MapSeqs, l \in 0..MaxLine, f \in Cols}
+ChunkSet == {[maps |-> ms, lines |-> l, fcol |-> f, nsrc |-> k] : ms \in MapSeqs, l \in 0..MaxLine, f \in Cols, k \in SrcCounts}
 Chunks == {WithBuf(c) : c \in {c \in ChunkSet :
              /\ c.maps[Len(c.maps)].gl <= c.lines
-             /\ c.maps[Len(c.maps)].gl = c.lines => c.maps[Len(c.maps)].gc <= c.fcol}}
+             /\ c.maps[Len(c.maps)].gl = c.lines => c.maps[Len(c.maps)].gc <= c.fcol
+             /\ \A i \in 1..Len(c.maps) : c.maps[i].src < c.nsrc}}
 Offsets == {Off(l, c) : l \in 0..1, c \in Cols}
+\* (a smaller set that a config may substitute: Offsets <- FewOffsets)
+FewOffsets == {Off(0, 0), Off(1, Max(Cols))}
 
 LinkInit == s = [n |-> 0, L |-> Link0, d |-> St0, e |-> Zero, pend |-> Zero, afterNull |-> FALSE,
-                 ok |-> TRUE, sorted |-> TRUE, inrange |-> TRUE, srcs |-> 0]
+                 rs |-> << >>, ok |-> TRUE, sorted |-> TRUE, inrange |-> TRUE, named |-> TRUE]
 
 SortedMaps(ms, before) ==
   /\ \A i \in 1..(Len(ms) - 1) : ~PosLess(ms[i + 1], ms[i])
   /\ ms # <<>> => ~PosLess(ms[1], before)
 
-\* a chunk with mappings is appended at offset off after the pending ignored text
-LinkChunk(c, off) ==
+\* the files a new result may come from: a file not seen yet, or (WithRepeat) one
+\* that already has a slot and contributes the same number of sources
+NewFile == Cardinality(FilesOf(s.rs)) + 1
+FileChoices(c) == {NewFile} \cup (IF WithRepeat THEN {f \in FilesOf(s.rs) : NsrcOf(s.rs, f) = c.nsrc} ELSE {})
+
+\* a chunk with mappings, printed from file f, is appended at offset off after the
+\* pending ignored text
+LinkChunk(c, f, off) ==
   \* (singleton quantifiers make TLC evaluate each intermediate value once)
+  \E rs1 \in {Append(s.rs, [file |-> f, nsrc |-> c.nsrc, null |-> FALSE])} :
+  \E P \in {SourcesPass(rs1, Pass0)} :           \* the first loop over all results so far
   \E o \in {Add(s.pend, off)} :                  \* prevOffset in linker.go: not reset by ignored chunks
-  \E r \in {[chunk |-> c, off |-> o, src |-> s.srcs, null |-> FALSE]} :
+  \E r \in {[chunk |-> c, off |-> o, src |-> P.idx[f], null |-> FALSE]} :
   \E p \in {Add(s.e, o)} :                       \* where the chunk's text starts
   \E piece \in {LinkPiece(s.L, r)} :
   \E dec \in {Dec(piece, s.d, <<>>)} :
      s' = [n |-> s.n + 1, L |-> LinkAfter(s.L, r), d |-> dec.st, e |-> ChunkEnd(c, p), pend |-> Zero,
-           afterNull |-> FALSE,
-           ok |-> dec.maps = Rebased(c, p, s.srcs, s.L.tn) /\ WellFormedStream(piece),
+           afterNull |-> FALSE, rs |-> rs1,
+           ok |-> dec.maps = Rebased(c, p, RefBase(rs1, f), s.L.tn) /\ WellFormedStream(piece),
            sorted |-> SortedMaps(dec.maps, Mp(s.d.gl, s.d.gc, 0, 0, 0, 0)),
            inrange |-> \A i \in 1..Len(dec.maps) :
-                          /\ dec.maps[i].src \in 0..s.srcs
+                          /\ dec.maps[i].src \in 0..(Len(P.items) - 1)
                           /\ dec.maps[i].nm < s.L.tn + NumNames(c)
                           /\ dec.maps[i].gc >= 0 /\ dec.maps[i].ol >= 0 /\ dec.maps[i].oc >= 0,
-           srcs |-> s.srcs + 1]
+           \* WHICH source a decoded mapping names: entry dec.src of the "sources"
+           \* array is source number c.maps[i].src of the map of file f
+           named |-> /\ Len(dec.maps) = Len(c.maps)
+                     /\ \A i \in 1..Len(c.maps) :
+                          /\ dec.maps[i].src \in 0..(Len(P.items) - 1)
+                          /\ P.items[dec.maps[i].src + 1] = <<f, c.maps[i].src>>]
 
 \* a chunk without mappings but with text of extent len: the linker emits one
 \* 1-field "null" mapping AT THE END OF THE PREVIOUS MAPPED CHUNK (the entry's
 \* generatedOffset is left zero), unless the previous entry is a null entry too
-\* or nothing was mapped yet; the text itself only advances prevOffset
-NullChunk == [maps |-> <<>>, lines |-> 0, fcol |-> 0, buf |-> <<>>, end |-> St0]
+\* or nothing was mapped yet; the text itself only advances prevOffset.  A null
+\* entry contributes nothing to "sources" (the first loop skips it).
+NullChunk == [maps |-> <<>>, lines |-> 0, fcol |-> 0, nsrc |-> 0, buf |-> <<>>, end |-> St0]
 LinkNull(len) ==
   LET r == [chunk |-> NullChunk, off |-> Zero, src |-> 0, null |-> TRUE]
       emit == s.n > 0 /\ ~s.afterNull
@@ -293,6 +352,7 @@ LinkNull(len) ==
                     !.d = dec.st,
                     !.pend = Add(s.pend, len),
                     !.afterNull = emit \/ s.afterNull,
+                    !.rs = Append(s.rs, [file |-> 0, nsrc |-> 0, null |-> TRUE]),
                     !.ok = IF emit THEN dec.maps = <<Mp(s.e.lines, s.e.cols, -1, -1, -1, -1)>> ELSE TRUE,
                     !.sorted = SortedMaps(dec.maps, Mp(s.d.gl, s.d.gc, 0, 0, 0, 0)),
                     !.inrange = TRUE]
@@ -300,16 +360,27 @@ LinkNull(len) ==
 LinkNext ==
   /\ s.n < MaxChunks
   /\ s.ok
-  /\ \/ \E c \in Chunks, off \in Offsets : LinkChunk(c, off)
+  /\ \/ \E c \in Chunks, off \in Offsets : \E f \in FileChoices(c) : LinkChunk(c, f, off)
      \/ /\ WithNull
         /\ s.pend = Zero           \* one ignored text between two mapped chunks (more only add to pend)
         /\ \E len \in (Offsets \ {Zero}) : LinkNull(len)
 
 \* THE property: decoding the joined delta stream yields exactly the chunks'
-\* own mappings re-based by the text position where each chunk starts
+\* own mappings re-based by the text position where each chunk starts, with the
+\* source index moved by the number of sources of the files before it
 DecodeJoinedIsRebased == s.ok
 GeneratedSorted == s.sorted
 IndicesInRange == s.inrange
+\* every decoded mapping names, through "sources", the source its chunk meant
+MappingNamesItsSource == s.named
+\* the first loop yields the concatenation of the files' source lists and the
+\* reference bases (null entries and repeated files contribute nothing)
+SourcesAreConcatenation ==
+  LET P == SourcesPass(s.rs, Pass0) IN
+    /\ P.next = RefNumSources(s.rs) /\ Len(P.items) = P.next
+    /\ DOMAIN P.idx = FilesOf(s.rs)
+    /\ \A f \in FilesOf(s.rs) : P.idx[f] = RefBase(s.rs, f)
+    /\ \A k \in 0..(P.next - 1) : P.items[k + 1] = RefSourceAt(s.rs, k)
 \* the decoder state is the absolute end state: same source/original position/name
 \* as prevEndState (what the next Join relies on)
 EndStateAgrees ==
@@ -399,4 +470,54 @@ ShiftsOnlyOwnLine ==
 \* substitution keeps the order of generated positions
 ShiftKeepsOrder ==
   \A i \in 1..(Len(s.maps) - 1) : ~PosLess(s.dec[i + 1], s.dec[i])
+
+(***************************************************************************)
+(* 7. Composition through an input source map: SourceMap.Find and          *)
+(*    ChunkBuilder.appendMapping (internal/sourcemap/sourcemap.go)         *)
+(***************************************************************************)
+\* An input map is a sequence of segments [gl, gc, one, id] sorted by (gl, gc)
+\* (not strictly: several segments may stand at one generated position).  one =
+\* a 1-field segment ("the text from here on has no origin"); id stands for the
+\* segment's (source, original line, original column, name).
+\* SourceMap.Find: binary search for the last segment at or before (line, col);
+\* it only counts when it is on the same line
+RECURSIVE FindLoop(_, _, _, _, _)
+FindLoop(ms, line, col, index, count) ==
+  IF count <= 0 THEN index
+  ELSE LET step == count \div 2
+           i == index + step
+       IN IF ms[i + 1].gl < line \/ (ms[i + 1].gl = line /\ ms[i + 1].gc <= col)
+          THEN FindLoop(ms, line, col, i + 1, count - step - 1)
+          ELSE FindLoop(ms, line, col, index, step)
+Find(ms, line, col) ==       \* index of the segment found, 0 = none
+  LET index == FindLoop(ms, line, col, 0, Len(ms))
+  IN IF index > 0 /\ ms[index].gl = line THEN index ELSE 0
+\* Reference meaning of a lookup: the LAST segment of that line that does not
+\* start after the column covers the position
+RefFind(ms, line, col) ==
+  LET S == {i \in 1..Len(ms) : ms[i].gl = line /\ ms[i].gc <= col}
+  IN IF S = {} THEN 0 ELSE Max(S)
+\* what esbuild's parser keeps of an input map: 1-field segments are dropped
+RECURSIVE Kept(_)
+Kept(ms) == IF ms = <<>> THEN <<>> ELSE (IF Head(ms).one THEN <<>> ELSE <<Head(ms)>>) \o Kept(Tail(ms))
+\* appendMapping: a printer mapping that points at (line, col) of the intermediate
+\* text is replaced by the segment found there, or dropped (0)
+ComposeId(ms, line, col) == LET k == Find(Kept(ms), line, col) IN IF k = 0 THEN 0 ELSE Kept(ms)[k].id
+RefComposeId(ms, line, col) == LET k == RefFind(ms, line, col) IN IF k = 0 \/ ms[k].one THEN 0 ELSE ms[k].id
+
+\* the find machine: every small input map is one initial state
+FindSegs(n, ones) == {ms \in [1..n -> [gl : 0..1, gc : Cols, one : ones, id : 1..n]] :
+                        /\ \A i \in 1..n : ms[i].id = i
+                        /\ \A i \in 1..(n - 1) : ~PosLess(ms[i + 1], ms[i])}
+FindInit == \E n \in 0..MaxMaps : \E ms \in FindSegs(n, {FALSE}) : s = ms
+FindInit1 == \E n \in 0..MaxMaps : \E ms \in FindSegs(n, BOOLEAN) : s = ms
+FindNext == FALSE /\ s' = s
+QueryCols == Cols \cup {c + 1 : c \in Cols}
+\* the binary search is the reference lookup (no 1-field segments)
+FindIsCovering == \A line \in 0..2, col \in QueryCols : Find(s, line, col) = RefFind(s, line, col)
+\* with 1-field segments kept out by the parser, the composition still honours
+\* them -- expected to be VIOLATED on the model (config SourceMap.find1.cfg): text
+\* after a 1-field segment inherits the segment before it; the counterexample is
+\* replayed against the real bundler by the "holes" input maps (c07/inmap.go)
+ComposeHonoursUnmapped == \A line \in 0..2, col \in QueryCols : ComposeId(s, line, col) = RefComposeId(s, line, col)
 =============================================================================
